@@ -82,7 +82,26 @@ def run(tier, seed, rng):
                     ops.append(('pack', 0, ('pkt', 0, {0: off, 1: ln, 2: 7, 3: 9, 4: b'xy'[:ln], 5: 0xbeef}), 0))
                     if off >= 4 and off + ln <= 8:
                         ops.append(('derive', 0, ('pkt', 0, {0: off, 1: ln, 2: 7, 3: 9, 4: b'xy'[:ln], 5: 0xbeef}), 7))
-        for c in (table if b != 1 else {}):
+        if b == 2:
+            # fields that OVERLAP on input (a field moved backwards re-reads bytes another field has read): inputs shorter than the sum
+            # of the fixed sizes parse fine field by field, and must under every option combination
+            table = {0: dict(end=None, align=None, sbl=None, gp=True, gu=True, vec=True, ann=True, fields=[
+                         {'move': None, 'body': ('elem', ('leaf', ('int', 1, False, None, 0)))},
+                         {'move': None, 'body': ('elem', ('leaf', ('dsized', ('lit', 8), 'const', b'')))},
+                         {'move': (('field', 0), 'RInner', False, 'at'), 'body': ('elem', ('leaf', ('dsized', ('lit', 4), 'const', b'')))}]),
+                     1: dict(end=None, align=None, sbl=None, gp=True, gu=True, vec=True, ann=True, fields=[
+                         {'move': None, 'body': ('elem', ('leaf', ('int', 2, False, None, 0)))},
+                         {'move': None, 'body': ('elem', ('leaf', ('dsized', ('lit', 4), 'const', b'')))},
+                         {'move': (('const', -4), 'RCur', False, 'shift'), 'body': ('elem', ('leaf', ('int', 4, False, None, 0)))},
+                         {'move': (('const', 2), 'RInner', False, 'at'), 'body': ('elem', ('leaf', ('int', 2, True, 'little', 0)))}])}
+            for off in (0, 2):
+                pre = b'PQ'[:off]
+                for k in (1, 4, 5, 2, 9):
+                    ops.append(('unpack', 0, pre + bytes([k]) + b'XXXABCDX', off))
+                    ops.append(('unpack', 0, pre + bytes([k]) + b'XXXABCDXyz', off))
+                for raw in (b'\x01\x02ABCD', b'\x01\x02ABCDE', b'\x01\x02ABC'):
+                    ops.append(('unpack', 1, pre + raw, off))
+        for c in (table if b not in (1, 2) else {}):
             for _ in range(2):
                 v = vg.try_value(c)
                 if v is None:
@@ -116,6 +135,8 @@ def run(tier, seed, rng):
             for kind, c, v, sd in ops:
                 if kind == 'derive':
                     G.add_derive(c, v, seed=sd, offsets=(2,), maxcuts=10, flips=2)
+                elif kind == 'unpack':
+                    G.add_unpack(c, v, sd)
                 else:
                     G.add_pack(c, v)
             groups.append(G)
